@@ -159,7 +159,7 @@ pub fn run(ctx: &Ctx) {
          oracle: write returns Err(OutputError::Sink(k)), never panics, never Ok, and the bits accepted before the failure are a prefix of the reference bit string; evaluations = number of (component, k) pairs; non-trivial = failure inside a frame body; distinct by stream case",
     );
     ctx.enumerate("crafted", 12, 12, crafted, check);
-    let per = ctx.tier.scale(40, 8);
+    let per = ctx.tier.scale(1500, 4);
     ctx.search("generated", 16, per, &|| {
         (stream_case_strategy(CfgOpts { max_block: 200, ..Default::default() }, InOpts { budget: 900, max_channels: 3, ..Default::default() }, false), any::<bool>(), any::<bool>())
             .prop_map(|(base, extra_meta, precompute)| Case { base, extra_meta, precompute })
